@@ -24,6 +24,7 @@ import (
 	"fmt"
 	"log/slog"
 	"net/netip"
+	"os"
 	"sort"
 	"strings"
 	"sync"
@@ -36,6 +37,7 @@ import (
 
 var vnetT *testing.T
 var vnetHung bool
+var vnetDebug = os.Getenv("VNET_DEBUG") != ""
 
 func TestVerifC19net(t *testing.T) { vnetMain(t, 19) }
 func TestVerifC20net(t *testing.T) { vnetMain(t, 20) }
@@ -190,7 +192,28 @@ func (h vnetLog) Handle(_ context.Context, r slog.Record) error {
 	case "transport:packet_received":
 		dir = "rx"
 	default:
+		if vnetDebug && h.side == 0 {
+			fmt.Fprintf(os.Stderr, "dbg %d %s", h.side, r.Message)
+			r.Attrs(func(a slog.Attr) bool { fmt.Fprintf(os.Stderr, " %v", a); return true })
+			fmt.Fprintln(os.Stderr)
+		}
 		return nil
+	}
+	if vnetDebug && h.side == 0 {
+		fmt.Fprintf(os.Stderr, "dbg %d %s %s", h.side, time.Now().Format("05.000"), dir)
+		r.Attrs(func(a slog.Attr) bool {
+			if a.Key == "header" {
+				fmt.Fprintf(os.Stderr, " %v", a.Value)
+			}
+			if a.Key == "frames" {
+				vals, _ := a.Value.Any().([]slog.Value)
+				for _, v := range vals {
+					fmt.Fprintf(os.Stderr, " {%v}", v.Any())
+				}
+			}
+			return true
+		})
+		fmt.Fprintln(os.Stderr)
 	}
 	r.Attrs(func(a slog.Attr) bool {
 		if a.Key != "frames" {
@@ -778,6 +801,7 @@ func vnetRun(t *testing.T, sc vnetScenario, prop int, res *vnetResult) {
 			fmt.Fprintf(&sb, " [id=%d wrote=%d/%d wdone=%v read=%d rdone=%v accepted=%v", st.id, st.wrote, st.plan.total, st.wdone, st.read, st.rdone, st.r != nil)
 			w := st.w
 			fmt.Fprintf(&sb, " W: out=%d,%d fl=%d win=%d ms=%d un=%s ak=%s bl=%s", w.out.start, w.out.end, w.outflushed, w.outwin, w.outmaxsent, smRS(w.outunsent), smRS(w.outacked), smSV(w.outblocked))
+			fmt.Fprintf(&sb, " cl=%s op=%s rs=%s", smSV(w.outclosed), smSV(w.outopened), smSV(w.outreset))
 			if r := st.r; r != nil {
 				fmt.Fprintf(&sb, " R: in=%d,%d win=%d sm=%s set=%s ib=%d,%d", r.in.start, r.in.end, r.inwin, smSV(r.insendmax), smRS(r.inset), len(r.inbuf), r.inbufoff)
 			}
@@ -786,6 +810,13 @@ func vnetRun(t *testing.T, sc vnetScenario, prop int, res *vnetResult) {
 		for s := 0; s < 2; s++ {
 			f := &conns[s].streams.inflow
 			of := &conns[s].streams.outflow
+			ls := &conns[s].loss
+			sp := &ls.spaces[appDataSpace]
+			fmt.Fprintf(&sb, " loss%d: size=%d start=%d maxAcked=%d lastAE=%d next=%d timer0=%v ptoExp=%v armed=%v hsConf=%v inflight=%d cwnd=%d;", s, sp.size, sp.start(), sp.maxAcked, sp.lastAckEliciting, sp.nextNum, ls.timer.IsZero(), ls.ptoExpired, ls.ptoTimerArmed, ls.handshakeConfirmed, ls.cc.bytesInFlight, ls.cc.congestionWindow)
+			for i := 0; i < sp.size && i < 6; i++ {
+				sent := sp.nth(i)
+				fmt.Fprintf(&sb, " [pn=%d st=%d ae=%v]", sent.num, sent.state, sent.ackEliciting)
+			}
 			fmt.Fprintf(&sb, " conn%d: in u=%d s=%d n=%d c=%d sv=%s out max=%d used=%d state=%d flights=%d", s, f.usedLimit, f.sentLimit, f.newLimit, f.credit.Load(), smSV(f.sent), of.max, of.used, conns[s].lifetime.state, len(flights))
 		}
 		fail("net-no-progress", "no progress although the network is loss-free again:%s", sb.String())
